@@ -45,7 +45,9 @@ class dtml_re_class:
                 n = s + 5
                 e = text.find('-->', n)
                 if e < 0:
-                    return None
+                    # not a tag after all, keep looking behind it
+                    start = s + 1
+                    continue
                 en = 3
 
                 mo = end_match(text, n)
@@ -61,10 +63,13 @@ class dtml_re_class:
                 while 1:
                     e = text.find('>', e + 1)
                     if e < 0:
-                        return None
+                        break
                     if len(text[n:e].split('"')) % 2:
                         # check for even number of "s inside
                         break
+                if e < 0:
+                    start = s + 1
+                    continue
 
                 en = 1
                 end = ''
@@ -74,10 +79,13 @@ class dtml_re_class:
                 while 1:
                     e = text.find('>', e + 1)
                     if e < 0:
-                        return None
+                        break
                     if len(text[n:e].split('"')) % 2:
                         # check for even number of "s inside
                         break
+                if e < 0:
+                    start = s + 1
+                    continue
 
                 en = 1
                 end = '/'
@@ -117,11 +125,12 @@ class dtml_re_class:
                 start = s + 1
                 continue
 
+            mo = name_match(text, n)
+            if mo is None:
+                start = s + 1
+                continue
             break
 
-        mo = name_match(text, n)
-        if mo is None:
-            return None
         l_ = mo.end(0) - mo.start(0)
 
         a = n + l_
